@@ -38,6 +38,9 @@ func (r *soupRunner) load(c *soupCase) {
 		r.b.Poke(c.St.PC+uint16(i), uint8(x))
 	}
 	r.cpu = z80.CPU{Memory: r.b, IO: r.b}
+	if c.NilIO {
+		r.cpu.IO = nil
+	}
 	eng.ToCPU(&c.St, &r.cpu)
 }
 
@@ -105,6 +108,9 @@ func (r *soupRunner) cloneInto(dst *soupRunner, copyHALT bool) {
 		// third way of rebuilding: a plain struct copy of the CPU value, given its own memory and ports
 		dst.cpu = r.cpu
 		dst.cpu.Memory, dst.cpu.IO = dst.b, dst.b
+		if r.cpu.IO == nil {
+			dst.cpu.IO = nil
+		}
 		if r.cpu.Interrupt != nil {
 			it := *r.cpu.Interrupt
 			it.Data = append([]uint8(nil), r.cpu.Interrupt.Data...)
@@ -113,6 +119,9 @@ func (r *soupRunner) cloneInto(dst *soupRunner, copyHALT bool) {
 		return
 	}
 	dst.cpu = z80.CPU{Memory: dst.b, IO: dst.b}
+	if r.cpu.IO == nil {
+		dst.cpu.IO = nil
+	}
 	dst.cpu.States = r.cpu.States // copy of States
 	if copyHALT {
 		// the host-visible HALT indication is not part of States; the property lets a CPU be rebuilt from
@@ -251,6 +260,17 @@ func TestC10Deterministic(t *testing.T) {
 		c := genC10Soup(t)
 		other := genSoup(t, 12, c.Steps)
 		other.St.PC = c.St.PC // same addresses, different bytes
+		if rapid.IntRange(0, 3).Draw(t, "nilIO") == 0 {
+			// neither machine has an I/O device, and both programs talk to the same port numbers: what one CPU
+			// sends must not come back to the other (or to a later run)
+			p, q := int(rapid.Uint8().Draw(t, "portP")), int(rapid.Uint8().Draw(t, "portQ"))
+			c.NilIO, other.NilIO = true, true
+			c.Code = append([]int{0xDB, p, 0xD3, q, 0xDB, q, 0xDB, p, 0x47, 0xDB, q}, c.Code...)
+			other.Code = append([]int{0x3E, 0x5A, 0xD3, p, 0xD3, q, 0x3C, 0xD3, p}, other.Code...)
+			c.Steps += 6
+			other.Steps += 6
+			col.Label("machines-without-io-device")
+		}
 		a.load(&c)
 		var full soupTrace
 		a.runAll(&c, 0, &full)
@@ -315,8 +335,9 @@ func TestC10Concurrent(t *testing.T) {
 	col := stats.New("C10")
 	col.Sub = "concurrent"
 	defer finish(t, col)
-	col.Rule = "concurrent: rounds of G in 2..16 goroutines, each repeatedly running its own byte-soup program (own CPU, own memory) while the others run theirs; every final state, memory image and access-log hash " +
-		"must equal the same program run alone; race detector on; non-trivial = every round; distinct by hash(round programs)"
+	col.Rule = "concurrent: rounds of G in 2..16 goroutines, each repeatedly running its own byte-soup program (own CPU, own memory; a third of the rounds start every program with drawn ED / DD / FD / DD CB sequences " +
+		"most of which the emulator does not support, a quarter run without I/O device on shared port numbers) while the others run theirs - before anything has run these programs alone; every state and access-log hash " +
+		"must equal the same program run alone afterwards; race detector on; non-trivial = every round; distinct by hash(round programs)"
 	pool := make([]*soupRunner, 16)
 	for i := range pool {
 		pool[i] = &soupRunner{b: bus.New()}
@@ -326,20 +347,35 @@ func TestC10Concurrent(t *testing.T) {
 		reps := rapid.IntRange(1, 20).Draw(t, "reps")
 		cases := make([]soupCase, g)
 		solo := make([]soupTrace, g)
-		a := pool[0]
+		undef := rapid.IntRange(0, 2).Draw(t, "undefined") == 0
+		noIO := rapid.IntRange(0, 3).Draw(t, "nilIO") == 0
 		var rh uint64
 		for i := range cases {
 			cases[i] = genC10Soup(t)
 			cases[i].Actions = nil
-			a.load(&cases[i])
-			a.runAll(&cases[i], 0, &solo[i])
-			if solo[i].panic != nil {
-				col.Label("discarded:step-panics")
-				return
+			if undef {
+				// every goroutine executes encodings the emulator may not support (and warns about) that nobody has
+				// executed before in this process - at the same time as the others
+				var pre []int
+				for k := 0; k < 3; k++ {
+					pre = append(pre, rapid.SampledFrom([]int{0xED, 0xDD, 0xFD}).Draw(t, "prefix"), int(rapid.Uint8().Draw(t, "afterPrefix")), 0x00, 0x00)
+				}
+				pre = append(pre, 0xDD, 0xCB, int(rapid.Uint8().Draw(t, "d")), int(rapid.Uint8().Draw(t, "ddcb")))
+				cases[i].Code = append(pre, cases[i].Code...)
+				cases[i].Steps += 8
+			}
+			if noIO {
+				p := 0x10 + i&1
+				cases[i].NilIO = true
+				cases[i].Code = append([]int{0xDB, p, 0x3C, 0xD3, p, 0xDB, p}, cases[i].Code...)
+				cases[i].Steps += 4
 			}
 			rh = stats.Hash(rh, stateHash(&cases[i].St), uint64(len(cases[i].Code)))
 		}
+		// the concurrent phase comes first (whatever the package initialises lazily is then initialised under
+		// contention); the reference runs - each program alone - follow
 		msgs := make([]string, g)
+		first := make([]soupTrace, g)
 		var wg sync.WaitGroup
 		start := make(chan struct{})
 		for i := 0; i < g; i++ {
@@ -352,13 +388,17 @@ func TestC10Concurrent(t *testing.T) {
 					r.load(&cases[i])
 					var tr soupTrace
 					r.runAll(&cases[i], 0, &tr)
-					if tr.panic != nil {
-						msgs[i] = fmt.Sprint("Step panicked only when run concurrently: ", tr.panic)
+					if rep == 0 {
+						first[i] = tr
+						continue
+					}
+					if (tr.panic != nil) != (first[i].panic != nil) || len(tr.states) != len(first[i].states) {
+						msgs[i] = fmt.Sprintf("goroutine %d of %d: repetition %d ends differently from repetition 0 of the same program", i, g, rep)
 						return
 					}
-					for s := range solo[i].states {
-						if s >= len(tr.states) || tr.states[s] != solo[i].states[s] || tr.logs[s] != solo[i].logs[s] {
-							msgs[i] = fmt.Sprintf("goroutine %d of %d, repetition %d: Step %d differs from the same program run alone", i, g, rep, s+1)
+					for s := range tr.states {
+						if tr.states[s] != first[i].states[s] || tr.logs[s] != first[i].logs[s] {
+							msgs[i] = fmt.Sprintf("goroutine %d of %d: repetition %d differs from repetition 0 of the same program at Step %d", i, g, rep, s+1)
 							return
 						}
 					}
@@ -368,6 +408,28 @@ func TestC10Concurrent(t *testing.T) {
 		}
 		close(start)
 		wg.Wait()
+		a := pool[0]
+		for i := range cases {
+			a.load(&cases[i])
+			a.runAll(&cases[i], 0, &solo[i])
+			if solo[i].panic != nil && first[i].panic != nil {
+				col.Label("discarded:step-panics")
+				return
+			}
+			if msgs[i] != "" {
+				continue
+			}
+			if (solo[i].panic != nil) != (first[i].panic != nil) {
+				msgs[i] = fmt.Sprintf("goroutine %d of %d: Step panics only when run concurrently / only when run alone: %v / %v", i, g, first[i].panic, solo[i].panic)
+				continue
+			}
+			for s := range solo[i].states {
+				if s >= len(first[i].states) || first[i].states[s] != solo[i].states[s] || first[i].logs[s] != solo[i].logs[s] {
+					msgs[i] = fmt.Sprintf("goroutine %d of %d: Step %d differs from the same program run alone", i, g, s+1)
+					break
+				}
+			}
+		}
 		col.Eval(int64(g * reps))
 		for i, m := range msgs {
 			if m != "" {
@@ -376,6 +438,12 @@ func TestC10Concurrent(t *testing.T) {
 		}
 		col.Distinct(rh)
 		col.Label(fmt.Sprintf("goroutines:%d", g))
+		if undef {
+			col.Label("all-execute-unsupported-encodings")
+		}
+		if noIO {
+			col.Label("machines-without-io-device")
+		}
 		if col.WantSample(rh) {
 			col.Sample(rh, map[string]any{"goroutines": g, "reps": reps, "first_program": cases[0]})
 		}
